@@ -14,10 +14,10 @@
 //! child (with bucket), yield to parent (plain, with bucket, with proof), verify parent, next-call assertion,
 //! bucket assertion.
 //!
-//! Phase 1 (decides): the full history tree (no de-duplication) to depth 5 (quick) / 6 (thorough), with prefix
+//! Phase 1 (decides): the full history tree (no de-duplication) to depth 5 (quick) / 7 (thorough), with prefix
 //! pruning (a prefix the real validator rejects at an instruction is not extended).
 //! Phase 2 (reaches deeper): breadth-first search with de-duplication on a fingerprint of the *real* interpreter's
-//! state (reconstructed from the events it sends to a visitor) to depth 7 / 9 under state and wall caps.
+//! state (reconstructed from the events it sends to a visitor) to depth 7 / 10 under state and wall caps.
 //!
 //! Oracle A, one-directional as the statement: after every step the real validator is run on the history as a
 //! complete manifest. (1) If it gets past the last instruction (Ok, or an error that is only raised at the end of
@@ -702,7 +702,7 @@ pub fn run(ctx: Ctx) -> ! {
         ctx.finish(Level::ModelChecking, "replay", 0, false, Map::new(), &[]);
     }
 
-    let depth1 = ctx.pick(5usize, 6usize);
+    let depth1 = ctx.pick(5usize, 7usize);
     let mut cov = Map::new();
     let st = TreeStats::default();
     let mut per_kind = vec![];
@@ -741,8 +741,8 @@ pub fn run(ctx: Ctx) -> ! {
     cov.insert("phase1_full_tree".into(), json!({"max_depth": depth1, "states_are": "distinct accepted histories (no de-duplication)", "per_kind": per_kind, "rejected_leaves": st.leaves_rejected.load(Ordering::Relaxed)}));
 
     // phase 2
-    let depth2 = ctx.pick(7usize, 9usize);
-    let (cap_states, cap_wall) = ctx.pick((60_000u64, 10.0f64), (400_000u64, 150.0f64));
+    let depth2 = ctx.pick(7usize, 10usize);
+    let (cap_states, cap_wall) = ctx.pick((60_000u64, 10.0f64), (1_500_000u64, 120.0f64));
     let mut total = BfsStats::default();
     let mut p2 = vec![];
     for kind in KINDS {
